@@ -153,6 +153,7 @@ type Unit struct {
 	frameSites map[string]int
 	atAsserts map[*ast.CallExpr][]*Clause
 	refMapValue map[string]bool
+	argCache   map[ast.Expr]Val
 	frameAlloc string
 	revealing  bool
 	readTrace  map[string]bool
